@@ -42,25 +42,31 @@ def run(ctx, ck) -> None:
         ck.incomplete('P1', p2i, 'pixel2index no longer has the shape "first axis; one loop over the other axes; return"')
         return
     loop = loops[0]
-    pre = [st for st in p2i.body[: p2i.body.index(loop)] if isinstance(st, (ast.Assign, ast.AugAssign))]
-    env = path_env(Path([('stmt', st) for st in pre]))
     ps = ('attr', S, 'pixel_shape')
     dim0 = ('sub', ps, ('const', '0'))
-    dt = env.get('dtype') or ('var', 'dtype')
+    # roles from the return statement: where(VALID, INDEX, -1)
+    rt = term(rets[0].value)
+    good_ret = rt[0] == 'call' and rt[1] == ('attr', ('var', 'jnp'), 'where') and len(rt[2]) == 3 and rt[2][0][0] == 'var' and rt[2][1][0] == 'var' and rt[2][2] in (('unop', 'neg', ('const', '1')), ('const', '-1'))
+    ck.expect('P1', good_ret, rets[0], 'result = where(valid, index, -1)', f'pixel2index returns {show(rt)}', instance='result')
+    if not good_ret:
+        return
+    V, I = rt[2][0][1], rt[2][1][1]
+    pre = [st for st in p2i.body[: p2i.body.index(loop)] if isinstance(st, (ast.Assign, ast.AugAssign))]
+    # the dtype variable is chosen in an if: keep it symbolic (any name passed to astype)
+    env_sym: dict = {}
+    for st in pre:
+        env_sym = path_env(Path([('stmt', st)]), env_sym)
 
-    def rounded(c):
-        return ('call', ('attr', ('call', ('attr', ('var', 'jnp'), 'round'), (c,), ()), 'astype'), (('var', 'dtype'),), ())
+    def is_rounded(t, c):
+        return t[0] == 'call' and t[1][0] == 'attr' and t[1][2] == 'astype' and t[1][1] == ('call', ('attr', ('var', 'jnp'), 'round'), (c,), ())
 
-    # pre-loop environment with dtype kept symbolic
-    env_sym = path_env(Path([('stmt', st) for st in pre if not (isinstance(st, ast.Assign) and isinstance(st.targets[0], ast.Name) and st.targets[0].id == 'dtype')]))
-    idx0 = rounded(('sub', coords, ('const', '0')))
-    ck.expect('P2', env_sym.get('indices') == idx0, p2i, 'the first coordinate is rounded to the nearest integer, cast, and enters with stride 1',
-              f'the first axis index is {show(env_sym.get("indices"))}', instance='first axis index')
-    ck.expect('P2', env_sym.get('stride') == dim0, p2i, 'the stride starts as the size of the first (fastest) axis', f'the initial stride is {show(env_sym.get("stride"))}', instance='initial stride')
-    v0 = env_sym.get('valid')
-    want_v0 = ('binop', '&', ('cmp', 'le', ('const', '0'), idx0), ('cmp', 'lt', idx0, dim0))
-    alt_v0 = ('binop', '&', ('cmp', 'lt', idx0, dim0), ('cmp', 'le', ('const', '0'), idx0))
-    ck.expect('P1', v0 in (want_v0, alt_v0) or _range_mask(v0, idx0, dim0), p2i, 'first axis: valid = (0 <= i) & (i < pixel_shape[0])',
+    idx0 = env_sym.get(I)
+    ck.expect('P2', idx0 is not None and is_rounded(idx0, ('sub', coords, ('const', '0'))), p2i, 'the first coordinate is rounded to the nearest integer, cast, and enters with stride 1',
+              f'the first axis index is {show(idx0)}', instance='first axis index')
+    v0 = env_sym.get(V)
+    want_v0 = {('binop', '&', ('cmp', 'le', ('const', '0'), idx0), ('cmp', 'lt', idx0, dim0)), ('binop', '&', ('cmp', 'lt', idx0, dim0), ('cmp', 'le', ('const', '0'), idx0)),
+               ('binop', '&', ('cmp', 'ge', idx0, ('const', '0')), ('cmp', 'lt', idx0, dim0))}
+    ck.expect('P1', v0 in want_v0 or _range_mask(v0, idx0, dim0), p2i, 'first axis: valid = (0 <= i) & (i < pixel_shape[0])',
               f'the validity mask of the first axis is {show(v0)}: it must reject both i < 0 and i >= pixel_shape[0]', instance='first axis mask')
     # loop header
     it = term(loop.iter)
@@ -73,41 +79,43 @@ def run(ctx, ck) -> None:
     coord, dim = ('var', names[0]), ('var', names[1])
     body = loop.body
     order = []
-    benv: dict = {}
     ia = None
     for st in body:
         if isinstance(st, ast.Assign) and isinstance(st.targets[0], ast.Name):
-            benv = path_env(Path([('stmt', st)]), benv)
-            if term(st.value) == rounded(coord):
+            if is_rounded(term(st.value), coord):
                 ia = ('var', st.targets[0].id)
         elif isinstance(st, ast.AugAssign) and isinstance(st.target, ast.Name):
             order.append((st.target.id, type(st.op).__name__, term(st.value, {})))
     ck.expect('P2', ia is not None, loop, 'each further coordinate is rounded to the nearest integer and cast', 'a coordinate is no longer rounded with jnp.round before the cast (truncation shifts pixel boundaries)', instance='loop rounding')
     if ia is None:
         return
-    names_order = [o[0] for o in order]
-    mask = next((o for o in order if o[0] == 'valid'), None)
-    acc = next((o for o in order if o[0] == 'indices'), None)
-    strd = next((o for o in order if o[0] == 'stride'), None)
-    want_mask = {('binop', '&', ('cmp', 'le', ('const', '0'), ia), ('cmp', 'lt', ia, dim)), ('binop', '&', ('cmp', 'lt', ia, dim), ('cmp', 'le', ('const', '0'), ia))}
+    mask = next((o for o in order if o[0] == V), None)
+    acc = next((o for o in order if o[0] == I), None)
+    STR = None
+    if acc is not None and acc[2][0] == 'binop' and acc[2][1] == '*':
+        other = acc[2][3] if acc[2][2] == ia else acc[2][2] if acc[2][3] == ia else None
+        STR = other[1] if other is not None and other[0] == 'var' else None
+    strd = next((o for o in order if o[0] == STR), None) if STR else None
+    ck.expect('P2', STR is not None and env_sym.get(STR) == dim0, p2i, 'the stride starts as the size of the first (fastest) axis', f'the initial stride is {show(env_sym.get(STR)) if STR else "?"}', instance='initial stride')
+    want_mask = {('binop', '&', ('cmp', 'le', ('const', '0'), ia), ('cmp', 'lt', ia, dim)), ('binop', '&', ('cmp', 'lt', ia, dim), ('cmp', 'le', ('const', '0'), ia)),
+                 ('binop', '&', ('cmp', 'ge', ia, ('const', '0')), ('cmp', 'lt', ia, dim))}
     ck.expect('P1', mask is not None and mask[1] == 'BitAnd' and (mask[2] in want_mask or _range_mask(mask[2], ia, dim)), loop, 'every further axis: valid &= (0 <= i) & (i < dim)',
               f'the validity mask of the loop is updated with {show(mask[2]) if mask else "nothing"} ({mask[1] if mask else "-"}): a coordinate outside the map in this dimension would wrap into another row instead of yielding -1', instance='loop mask')
-    ck.expect('P2', acc is not None and acc[1] == 'Add' and acc[2] in (('binop', '*', ia, ('var', 'stride')), ('binop', '*', ('var', 'stride'), ia)), loop, 'index += i * stride',
+    ck.expect('P2', acc is not None and acc[1] == 'Add' and STR is not None, loop, 'index += i * stride',
               f'the index is accumulated with {show(acc[2]) if acc else "nothing"}', instance='index accumulation')
     ck.expect('P2', strd is not None and strd[1] == 'Mult' and strd[2] == dim, loop, 'stride *= dim: the same dim that bounds this axis',
               f'the stride is updated with {show(strd[2]) if strd else "nothing"}: not the size of the axis that was just bounded', instance='stride update')
-    ck.expect('P2', 'indices' in names_order and 'stride' in names_order and names_order.index('indices') < names_order.index('stride'), loop,
+    names_order = [o[0] for o in order]
+    ck.expect('P2', STR is not None and I in names_order and STR in names_order and names_order.index(I) < names_order.index(STR), loop,
               'the index is accumulated with the current stride before the stride is multiplied', 'the stride is multiplied before the index of this axis is accumulated (row-major order broken)', instance='recurrence order')
-    rt = term(rets[0].value)
-    ck.expect('P1', rt == ('call', ('attr', ('var', 'jnp'), 'where'), (('var', 'valid'), ('var', 'indices'), ('unop', 'neg', ('const', '1'))), ()), rets[0],
-              'result = where(valid, index, -1)', f'pixel2index returns {show(rt)}', instance='result')
     # P5 dtype
-    ifs = [n for n in p2i.body if isinstance(n, ast.If) and any(isinstance(b, ast.Assign) and ast.unparse(b.targets[0]) == 'dtype' for b in n.body)]
+    ifs = [n for n in p2i.body if isinstance(n, ast.If) and n.body and isinstance(n.body[0], ast.Assign) and n.orelse and isinstance(n.orelse[0], ast.Assign)
+           and ast.unparse(n.body[0].targets[0]) == ast.unparse(n.orelse[0].targets[0])]
     ok = False
     if ifs:
         t = term(ifs[0].test)
-        small = ast.unparse(ifs[0].body[0].value) if ifs[0].body else ''
-        big = ast.unparse(ifs[0].orelse[0].value) if ifs[0].orelse else ''
+        small = ast.unparse(ifs[0].body[0].value)
+        big = ast.unparse(ifs[0].orelse[0].value)
         lhs_ok = t[0] == 'cmp' and t[1] in ('le', 'lt') and show(t[2]).replace(' ', '') in ('(len(self)-1)', 'len(self)')
         ok = lhs_ok and 'int32' in show(t[3]) and small.endswith('int32') and big.endswith('int64')
     ck.expect('P5', ok, p2i, 'int32 indices unless the largest index exceeds the int32 range, then int64', 'the index dtype is no longer chosen from the size of the map', instance='index dtype')
